@@ -295,6 +295,10 @@ def r4_inverse_helpers(ctx):
     ret = [n for n in walk_shallow(fn) if isinstance(n, ast.Return)][-1]
     ctx.check(same(ret.value, "Henry_H_at_T(T, self.Hcp, self.Tderiv, self.T0, units=units, backend=backend)", scope=fn), HENRY + ":Henry.__call__", "own-parameters",
               "Henry.__call__ must evaluate Henry_H_at_T(T, self.Hcp, self.Tderiv, self.T0, units=, backend=)", node=ret)
+    hw = ctx.func(HENRY, "HenryWithUnits.__call__")
+    ret = [n for n in walk_shallow(hw) if isinstance(n, ast.Return)][-1]
+    ctx.check(same(ret.value, "super(HenryWithUnits, self).__call__(T, units, backend)", scope=hw) or same(ret.value, "super().__call__(T, units, backend)", scope=hw), HENRY + ":HenryWithUnits.__call__", "delegates-to-Henry",
+              "the unit-aware variant must delegate to Henry.__call__ (which passes its own Hcp, Tderiv and T0); found %s" % U(ret.value), node=ret)
     fn = ctx.func(HENRY, "Henry_H_at_T")
     ret = [n for n in walk_shallow(fn) if isinstance(n, ast.Return)][-1]
     ctx.check(same(ret.value, "H * be.exp(Tderiv * (1 / T - 1 / T0))", scope=fn), HENRY + ":Henry_H_at_T", "van-t-Hoff", "H(T) must be H * exp(Tderiv * (1/T - 1/T0)); found %s" % U(ret.value), node=ret)
@@ -305,7 +309,7 @@ RULES = [
     Rule("C19-R1", r1_homogeneity, 20, "unit-mode homogeneity, result dimension, hard-coded vs constants branches"),
     Rule("C19-R2", r2_scale_safety, 12, "no raw-magnitude read of a value carrying a caller-chosen unit ratio"),
     Rule("C19-R3", r3_ranges, 24, "range warnings at the published limits, strict, guarded by warn"),
-    Rule("C19-R4", r4_inverse_helpers, 5, "Henry inverse helpers and van 't Hoff form"),
+    Rule("C19-R4", r4_inverse_helpers, 6, "Henry inverse helpers and van 't Hoff form"),
 ]
 
 MUTANTS = [
@@ -336,6 +340,9 @@ MUTANTS = [
 ]
 
 MUTANTS.append(Mutant("density-from-conc-drops-molar-mass-rescale", [(SULF, "        molar_mass = molar_mass.rescale(kg / mol)\n", "")], "C19-R2", "density_from_concentration"))
+
+MUTANTS.append(Mutant("henry-with-units-forgets-T0", [(HENRY, "        return super(HenryWithUnits, self).__call__(T, units, backend)", "        return Henry_H_at_T(T, self.Hcp, self.Tderiv, units=units, backend=backend)")], "C19-R4", "delegates"))
+MUTANTS.append(Mutant("density-warning-any-inside", [(DENS, "    if warn and (_any(t < 0 * K) or _any(t > 40 * K)):", "    in_range = (t >= 0 * K) & (t <= 40 * K)\n    if warn and not _any(in_range):")], "C19-R3", "range-warning"))
 
 TWINS = [
     Twin("viscosity-to-unitless-form", [(VISC, "        t = (t / K).simplified.magnitude\n", "        t = t.rescale(K).magnitude\n")]),
